@@ -4,7 +4,8 @@
 # suite passes with it, (3) the demo fails with it, (4) the demo passes without it; then runs the
 # given checks against it in /repo (applied and undone) and writes /verif/seeded/<ID><v>/.
 ID=$1; V=$2; shift 2
-SRC=/tmp/seed/out/$ID/$V
+SRC=${SEEDROOT:-/tmp/seed/out}/$ID/$V
+DV=$V; if [ "${WAVE:-1}" = "2" ]; then [ "$V" = "A" ] && DV=C; [ "$V" = "B" ] && DV=D; fi
 PATCH=$SRC/patch.diff; [ -f $SRC/patch.rebased.diff ] && PATCH=$SRC/patch.rebased.diff
 export GOFLAGS=-mod=mod GOPROXY=off GOSUMDB=off GOTOOLCHAIN=local
 WT=/tmp/sv/$ID$V; rm -rf $WT; git -C /repo worktree prune; git -C /repo worktree add --detach $WT HEAD >/dev/null 2>&1 || { echo "worktree failed"; exit 2; }
@@ -16,9 +17,10 @@ pkgdir=.; grep -q '^package fp' $demo && pkgdir=internal/fp
 tests=$(grep -oE '^func (Test[A-Za-z0-9_]+)' $demo | awk '{print $2}' | paste -sd'|')
 suite=$(go test -vet=off -count=1 ./... 2>&1 | tail -3 | tr '\n' ' ')
 cp $demo $pkgdir/zz_seed_demo_test.go
-demo_with=$(cd $pkgdir && timeout 600 go test -vet=off -count=1 -run "^($tests)\$" . 2>&1 | tail -1)
+RACE=""; [ "$ID" = "C18" ] && RACE="-race"
+demo_with=$(cd $pkgdir && timeout 900 go test $RACE -vet=off -count=1 -run "^($tests)\$" . 2>&1 | tail -1)
 git checkout -- . 2>/dev/null
-demo_without=$(cd $pkgdir && timeout 600 go test -vet=off -count=1 -run "^($tests)\$" . 2>&1 | tail -1)
+demo_without=$(cd $pkgdir && timeout 900 go test $RACE -vet=off -count=1 -run "^($tests)\$" . 2>&1 | tail -1)
 rm -f $pkgdir/zz_seed_demo_test.go
 cd /; git -C /repo worktree remove --force $WT
 echo "[$ID/$V] apply=$res_apply"
@@ -35,12 +37,13 @@ if [ $res_apply = ok ]; then
     echo "  check $c: $(echo "$out" | grep "== $c" )"
   done
 fi
-D=/verif/seeded/$ID$V; mkdir -p $D
+D=/verif/seeded/$ID$DV; mkdir -p $D
 cp $PATCH $D/patch.diff; cp $demo $D/demo_test.go; cp $SRC/notes.md $D/notes.md 2>/dev/null
-python3 - "$ID" "$V" "$res_apply" "$suite" "$demo_with" "$demo_without" "$caught" "$detail" "$*" <<'PY'
+NOTES_FILE=$SRC/notes.md python3 - "$ID" "$DV" "$res_apply" "$suite" "$demo_with" "$demo_without" "$caught" "$detail" "$*" <<'PY'
 import json,sys
 id,v,ap,suite,dw,dwo,caught,detail,ran=sys.argv[1:10]
-notes=open('/tmp/seed/out/%s/%s/notes.md'%(id,v)).read() if True else ''
+import os
+notes=open(os.environ.get('NOTES_FILE','/dev/null')).read()
 json.dump({"breaks_property":id,"variant":v,"source":"independent sub-agent given only the property text and a scratch worktree","needs_to_manifest":notes[:1500],
  "confirmed":{"patch_applies_to_repo_head":ap,"repo_suite_with_change":suite.strip(),"demo_with_change":dw.strip(),"demo_without_change":dwo.strip()},
  "checks_run":ran.split(),"caught_by":caught.split(),"first_violation":detail.strip()},open('/verif/seeded/%s%s/meta.json'%(id,v),'w'),indent=1)
